@@ -49,6 +49,14 @@ fn imgs() -> &'static Imgs {
 }
 thread_local! { static CHURN: std::cell::Cell<u32> = const { std::cell::Cell::new(0) }; }
 /// scale: the same schedule on a simulator that had `churn` devices attached and removed before (the requesting devices get ids past 2^8 / 2^9)
+thread_local! { static REUSE: std::cell::Cell<u8> = const { std::cell::Cell::new(0) }; }
+/// the same schedule on a simulator that was used before and `reset()` while it was in supervisor mode (see `supervisor_prior`)
+fn check_reuse(prog: usize, v: &Variant, kind: u8) -> Result<(u64, bool), (String, String)> {
+    REUSE.with(|c| c.set(kind));
+    let r = check_f(prog, v, false).map_err(|(s, d)| (s, format!("on a simulator that was reset() while in supervisor mode (prior use {kind}): {d}")));
+    REUSE.with(|c| c.set(0));
+    r
+}
 fn check_churn(prog: usize, v: &Variant, churn: u32) -> Result<(u64, bool), (String, String)> {
     CHURN.with(|c| c.set(churn));
     let r = check_f(prog, v, false).map_err(|(s, d)| (s, format!("after {churn} device attach/remove rounds: {d}")));
@@ -83,7 +91,8 @@ struct Final { finished: bool, regs: Vec<u16>, cc: u16, user_mem: Vec<u16>, disp
 fn run(prog: usize, v: &Variant, ign: bool) -> Result<Final, (String, String)> {
     let mut m = machine(prog, ign);
     if matches!(v, Variant::Keyboard { .. }) { m.kb_ie = true; }
-    let mut p = build(&m);
+    let reuse = REUSE.with(|c| c.get());
+    let mut p = if reuse == 0 { build(&m) } else { let (pm, steps) = supervisor_prior(&m, reuse); build_reused(&m, &pm, steps).map_err(|e| (format!("panic:{}", panic_site(&e)), format!("setting up a reused simulator: {e}")))? };
     let what = format!("program {prog} {v:?}{}", if ign { " ignore_privilege=true" } else { "" });
     let mut raised = [0u64; 2];
     let mut timer_model: Option<(u32, u32)> = None; // (n, time)
@@ -194,6 +203,20 @@ pub fn run_engine(ctx: &Ctx) -> Report {
             });
             rep.absorb(r);
         }
+        // life cycle: 0-1 requests at every poll on a simulator that was used before and reset() while in supervisor mode
+        for kind in [1u8, 2] { for k in 0..=1usize {
+            let n = slots.pow(k as u32);
+            let r = sweep(ctx, n, 16, |s, acc| {
+                let Some(events) = schedule(s, k, slots) else { return };
+                let v = Variant::Devices { pa: 4, pb: 7, events };
+                acc.evals += 1; acc.traces += 1; acc.count("schedules_on_reused_simulator", 1);
+                match check_reuse(prog, &v, kind) {
+                    Ok((p, any)) => { acc.transitions += p; if any { acc.nontrivial += 1; } }
+                    Err((sig, d)) => acc.violation(sig, format!("r:{prog}:{k}:{s}:{kind}"), d),
+                }
+            });
+            rep.absorb(r);
+        } }
         // scale: 0-1 requests at every poll on simulators whose device ids were pushed past 2^8 and 2^9
         for churn in [253u32, 254, 509, 510, 600] { for k in 0..=1usize {
             let n = slots.pow(k as u32);
@@ -245,6 +268,7 @@ pub fn replay(case: &str) -> Option<String> {
             let v = Variant::Devices { pa, pb, events: schedule(n(3)?, n(2)? as usize, polls * 2)? };
             return check_f(prog, &v, ign).err().map(|(s, d)| format!("[{s}] {d}")); }
         "c" => { let polls = base_polls(prog); let v = Variant::Devices { pa: 4, pb: 7, events: schedule(n(3)?, n(2)? as usize, polls * 2)? }; return check_churn(prog, &v, n(4)? as u32).err().map(|(s, d)| format!("[{s}] {d}")); }
+        "r" => { let polls = base_polls(prog); let v = Variant::Devices { pa: 4, pb: 7, events: schedule(n(3)?, n(2)? as usize, polls * 2)? }; return check_reuse(prog, &v, n(4)? as u8).err().map(|(s, d)| format!("[{s}] {d}")); }
         "k" => { let polls = base_polls(prog); Variant::Keyboard { appends: [n(2)?, n(3)?].into_iter().filter(|x| *x < polls).collect() } }
         "t" => Variant::Timer { n: n(2)? as u32 },
         _ => return None,
